@@ -226,7 +226,15 @@ pub fn run(rep: &mut Report) {
         el.dedup();
         sweep(rep, &format!("c20.counter_read[{}]", scale_name(ts)), 4 * el.len() as u64, |i, out| j_counter_read((i % 4) as usize, ts, el[(i / 4) as usize], &leap, out));
     }
-    let years: Vec<i32> = if q { vec![1, 4, 100, 400, 1582, 1899, 1900, 1904, 1999, 2000, 2023, 2024, 9999] } else { (1..=9999).collect() };
+    let mut years: Vec<i32> = if q { vec![1, 4, 100, 400, 1582, 1899, 1900, 1904, 1999, 2000, 2023, 2024, 9999] } else { (1..=9999).collect() };
+    // every year in which a leap second was inserted, and the year after (the elapsed time in a UTC year is civil time)
+    for d in leap.leap_days() {
+        let y = crate::oracle::civil::civil1900(d).0 as i32;
+        years.push(y);
+        years.push(y + 1);
+    }
+    years.sort();
+    years.dedup();
     let fr = [0.0, 0.25, 0.5, 0.999];
     let mut cases: Vec<(i32, u32)> = vec![];
     for y in &years {
